@@ -14,7 +14,9 @@ import (
 	"strings"
 	"sync"
 	"sync/atomic"
+	"syscall"
 	"time"
+	"unsafe"
 
 	"verif/harness/internal/fabioproc"
 )
@@ -319,8 +321,13 @@ type c09Rig struct {
 	// listeners (plain and TLS terminating) in front of a sink: an upstream that ends its own stream as soon as it has
 	// accepted a connection and then reads what the client sends
 	sinkA, sinkTLS string
-	sinkLn         net.Listener
-	sinkGot        sync.Map // session id -> []byte received after the prelude
+	// a listener in front of an upstream that answers and closes without reading what the client goes on sending
+	rejA      string
+	rejLn     net.Listener
+	rejU2C    int64
+	rejClosed sync.Map // session seed -> chan struct{}, closed when the rejecter has closed its connection
+	sinkLn    net.Listener
+	sinkGot   sync.Map // session id -> []byte received after the prelude
 }
 
 func newC09Rig(c *ctx) (*c09Rig, error) {
@@ -358,9 +365,17 @@ func newC09Rig(c *ctx) (*c09Rig, error) {
 	}
 	r.sinkLn = sln
 	go r.serveSink()
+	rln, err := net.Listen("tcp", "127.0.0.1:0")
+	if err != nil {
+		return nil, err
+	}
+	r.rejLn, r.rejU2C = rln, 2<<20
+	go r.serveRejecter()
+	prej := freePort()
+	r.rejA = fmt.Sprintf("127.0.0.1:%d", prej)
 	psink, psinkTLS := freePort(), freePort()
 	r.sinkA, r.sinkTLS = fmt.Sprintf("127.0.0.1:%d", psink), fmt.Sprintf("127.0.0.1:%d", psinkTLS)
-	addr := fmt.Sprintf("%s;proto=tcp,%s;proto=tcp,%s;proto=tcp+sni,127.0.0.1:%d;proto=tcp-dynamic;refresh=1s,%s;proto=http,%s;proto=tcp;cs=cs1,%s;proto=tcp;wt=800ms,%s;proto=tcp;pxyproto=true,%s;proto=https+tcp+sni;cs=cs1,%s;proto=tcp,%s;proto=tcp;cs=cs1", r.tcpA, r.tcpPP, r.sniA, pd, r.wsA, r.tcpTLS, r.tcpWT, r.tcpLPP, r.mixA, r.sinkA, r.sinkTLS)
+	addr := fmt.Sprintf("%s;proto=tcp,%s;proto=tcp,%s;proto=tcp+sni,127.0.0.1:%d;proto=tcp-dynamic;refresh=1s,%s;proto=http,%s;proto=tcp;cs=cs1,%s;proto=tcp;wt=800ms,%s;proto=tcp;pxyproto=true,%s;proto=https+tcp+sni;cs=cs1,%s;proto=tcp,%s;proto=tcp;cs=cs1,%s;proto=tcp", r.tcpA, r.tcpPP, r.sniA, pd, r.wsA, r.tcpTLS, r.tcpWT, r.tcpLPP, r.mixA, r.sinkA, r.sinkTLS, r.rejA)
 	rg, err := newRig(c, "tcp", []string{"-proxy.addr", addr, "-proxy.cs", "cs=cs1;type=path;cert=" + certDir, "-log.level", "WARN"})
 	if err != nil {
 		ln.Close()
@@ -381,6 +396,7 @@ func newC09Rig(c *ctx) (*c09Rig, error) {
 		fmt.Sprintf("route add wssvc ws.test/ http://%s/", upAddr),
 		fmt.Sprintf("route add sink :%d tcp://%s opts \"proto=tcp\"", psink, sln.Addr()),
 		fmt.Sprintf("route add sinktls :%d tcp://%s opts \"proto=tcp\"", psinkTLS, sln.Addr()),
+		fmt.Sprintf("route add rejecter :%d tcp://%s opts \"proto=tcp\"", prej, rln.Addr()),
 		fmt.Sprintf("route add wsssvc wss.test/ https://%s/ opts \"tlsskipverify=true\"", tln.Addr().String()),
 	}
 	rg.setManual(strings.Join(lines, "\n"))
@@ -388,7 +404,7 @@ func newC09Rig(c *ctx) (*c09Rig, error) {
 		r.close()
 		return nil, err
 	}
-	for _, a := range []string{r.tcpA, r.tcpPP, r.sniA, r.wsA, r.dynA, r.dynPPA, r.tcpTLS, r.tcpWT, r.tcpLPP, r.mixA, r.sinkA, r.sinkTLS} {
+	for _, a := range []string{r.tcpA, r.tcpPP, r.sniA, r.wsA, r.dynA, r.dynPPA, r.tcpTLS, r.tcpWT, r.tcpLPP, r.mixA, r.sinkA, r.sinkTLS, r.rejA} {
 		if !fabioproc.WaitListening(a, 30*time.Second) {
 			r.close()
 			return nil, fmt.Errorf("listener %s did not come up\n%s", a, rg.proc.LogTail(1500))
@@ -413,6 +429,129 @@ func (r *c09Rig) serveSink() {
 			}
 		}()
 	}
+}
+
+// serveRejecter: an upstream that answers and goes: it reads the 20-byte prelude, sends its whole reply, waits until its
+// peer's TCP stack has acknowledged every byte of it (SIOCOUTQ == 0) and closes (nothing unread, nothing unsent). What
+// the client sends after that cannot be delivered any more.
+func (r *c09Rig) serveRejecter() {
+	for {
+		cn, err := r.rejLn.Accept()
+		if err != nil {
+			return
+		}
+		go func() {
+			defer cn.Close()
+			pc := progressConn{cn}
+			pre := make([]byte, c09Prelude)
+			if _, err := io.ReadFull(pc, pre); err != nil || string(pre[:2]) != "VC" {
+				return
+			}
+			var seed uint64
+			fmt.Sscanf(string(pre[2:18]), "%016x", &seed)
+			if c09Send(pc, r.rejU2C, seed, 0, 64<<10, false, rand.New(rand.NewSource(1))) != nil {
+				return
+			}
+			raw, err := cn.(*net.TCPConn).SyscallConn()
+			if err != nil {
+				return
+			}
+			for k := 0; k < 4000; k++ { // up to 20s
+				q := 1
+				raw.Control(func(fd uintptr) {
+					var v int32
+					if _, _, e := syscall.Syscall(syscall.SYS_IOCTL, fd, 0x5411 /* SIOCOUTQ */, uintptr(unsafe.Pointer(&v))); e == 0 {
+						q = int(v)
+					}
+				})
+				if q == 0 {
+					break
+				}
+				time.Sleep(5 * time.Millisecond)
+			}
+			cn.Close() // nothing unread, nothing unsent: an ordinary close, FIN after the data
+			if ch, ok := r.rejClosed.Load(seed); ok {
+				close(ch.(chan struct{}))
+			}
+		}()
+	}
+}
+
+// c09EarlyReply: the upstream finishes first while the client is still sending and slow to read: "whichever side finishes
+// first has had all of its data delivered" - the client must receive the whole reply before its connection ends.
+func c09EarlyReply(c *ctx, rg *c09Rig, n int) {
+	for i := 0; i < n; i++ {
+		seed := uint64(0xabcd0000+i) | uint64(c.Seed)<<40
+		in := map[string]any{"session": i, "reply_bytes": rg.rejU2C}
+		c.R.Eval(1)
+		c.R.Nontrivial(fmt.Sprintf("tcp/upstream-answers-and-closes-while-client-still-sends/%d", i))
+		// the first session is a control: the same client against the same upstream without fabio in between. Only when a
+		// direct connection delivers the whole reply is the scenario a fair one.
+		target, direct := rg.rejA, i == 0
+		if direct {
+			target = rg.rejLn.Addr().String()
+		}
+		cn, err := net.DialTimeout("tcp", target, 10*time.Second)
+		if err != nil {
+			c.R.Violate("c09:connect-failed:tcp-early-reply", err.Error(), in)
+			return
+		}
+		pc := progressConn{cn}
+		upClosed := make(chan struct{})
+		rg.rejClosed.Store(seed, upClosed)
+		fmt.Fprintf(pc, "VC%016x\r\n", seed)
+		stop := make(chan struct{})
+		var sent atomic.Int64
+		go func() { // the client has not finished: once the upstream has gone it sends a byte every millisecond
+			select {
+			case <-upClosed:
+			case <-stop:
+				return
+			}
+			for {
+				select {
+				case <-stop:
+					return
+				case <-time.After(time.Millisecond):
+				}
+				if _, err := pc.Write([]byte("x")); err != nil {
+					return
+				}
+				sent.Add(1)
+			}
+		}()
+		ver := &c09Verifier{seed: seed}
+		buf := make([]byte, 8<<10)
+		var rerr error
+		for {
+			var k int
+			k, rerr = pc.Read(buf)
+			if k > 0 {
+				ver.Write(buf[:k])
+			}
+			if rerr != nil {
+				break
+			}
+			time.Sleep(time.Millisecond) // slow to read: 8 KiB per millisecond
+		}
+		close(stop)
+		cn.Close()
+		if direct {
+			if ver.bad != "" || ver.off != rg.rejU2C {
+				c.R.Count("early_reply_control_incomplete", 1)
+				c.R.Note("early-reply control: a direct connection delivered %d of %d bytes (%v): scenario not evaluated", ver.off, rg.rejU2C, rerr)
+				return
+			}
+			c.R.Count("early_reply_control_complete", 1)
+			continue
+		}
+		if ver.bad != "" {
+			c.R.Violate("c09:upstream-to-client-corrupt:tcp-early-reply", ver.bad, in)
+		} else if ver.off != rg.rejU2C {
+			c.R.Violate("c09:reply-truncated-when-upstream-finishes-while-client-still-sends:tcp", fmt.Sprintf("the upstream sent %d bytes, saw all of them acknowledged and closed; the client, slow to read and still sending (%d bytes so far), received %d bytes and then %v", rg.rejU2C, sent.Load(), ver.off, rerr), in)
+		}
+	}
+	c.R.Count("early_reply_sessions", int64(n))
 }
 
 // c09Sink: the upstream finishes first, before the client has sent anything (on the TLS terminating listener: before or
@@ -484,6 +623,9 @@ func (r *c09Rig) close() {
 	r.up.ln.Close()
 	if r.sinkLn != nil {
 		r.sinkLn.Close()
+	}
+	if r.rejLn != nil {
+		r.rejLn.Close()
 	}
 	if r.upTLS != nil {
 		r.upTLS.ln.Close()
@@ -574,6 +716,7 @@ func c09Tunnels(c *ctx) {
 	}
 	wg.Wait()
 	c09Sink(c, rg, c.scale(c.pick(24, 200)))
+	c09EarlyReply(c, rg, 1+c.scale(c.pick(4, 30)))
 	c.R.SetCounter("bytes_verified_client_to_upstream", bytesC2U.Load())
 	c.R.SetCounter("bytes_verified_upstream_to_client", bytesU2C.Load())
 	c.R.SetCounter("upstream_connections", rg.up.Conns.Load())
